@@ -271,7 +271,7 @@ func checkParseStringStep(c *Ctx, u *Universe, typeConsts map[string]int64) {
 				if cl, ok := ast.Unparen(r).(*ast.CompositeLit); ok {
 					for _, el := range cl.Elts {
 						if kv, ok := el.(*ast.KeyValueExpr); ok {
-							if id, ok := kv.Key.(*ast.Ident); ok && id.Name == "Type" {
+							if id, ok := kv.Key.(*ast.Ident); ok && astFieldName(info, id) == "Type" {
 								if o := identObj(info, kv.Value); o != nil {
 									tkTypeObj = o
 								}
